@@ -35,6 +35,11 @@ enum En
 };
 using Fn = int (*)(int);
 using Fn2 = long (*)(long, long);
+// function-pointer types that differ for the application but coincide under a 32-bit guest ABI
+using FnL = long (*)(long);        // vs Fn = int (*)(int)
+using FnIP = void (*)(int*);
+using FnCP = void (*)(char*);
+using FnU = void (*)(unsigned);
 
 // the compiler reports the type of an accepted expression through this incomplete template
 template<typename T>
@@ -123,6 +128,14 @@ struct Env
   tainted_opaque<int*, S> o_ptr;
   sandbox_callback<Fn, S>& cb;
   sandbox_callback<Fn2, S>& cb2;
+  sandbox_callback<FnL, S>& cb_l;
+  sandbox_callback<FnIP, S>& cb_ip;
+  tainted<FnL, S> t_fnl;
+  tainted<FnIP, S> t_fnip;
+  tainted_volatile<FnL, S>& v_fnl;
+  tainted_volatile<FnIP, S>& v_fnip;
+  tainted_volatile<FnCP, S>& v_fncp;
+  tainted_volatile<FnU, S>& v_fnu;
   app_pointer<int*, S>& ap;
   tainted_boolean_hint bh;
   tainted_int_hint ih;
